@@ -14,6 +14,8 @@ class T(models.Model):
     f = models.FloatField()
     g = models.UUIDField(null=True)
     dd = models.DateField(null=True)
+    # a fixed-point column: literals may carry more digits than the column keeps
+    m = models.DecimalField(max_digits=5, decimal_places=2, null=True)
 
     class Meta:
         app_label = "vp_djapp"
